@@ -55,7 +55,7 @@ ALPHA = alphabet()
 # rule-centred alphabet for a deeper second search
 RULE_ALPHA = [bytes([2, 0]), bytes([2, 1]), bytes([3, 0]), bytes([137, 0]), bytes([137, 1]), mvbytes(0, E=(0,)), mvbytes(0, N=(0,)),
               mvbytes(1, E=(1, 0)),
-              bytes([5]), bytes([8, 0]), bytes([7, 0]), bytes([7, 1]), bytes([10, 0]), bytes([11, 0]),
+              bytes([5]), bytes([8, 0]), bytes([8, 1]), bytes([7, 0]), bytes([7, 1]), bytes([10, 0]), bytes([11, 0]),
               bytes([12]), bytes([13]), bytes([14]), bytes([15]), bytes([19]),
               bytes([21]), bytes([22, 0]), bytes([22, 1]), bytes([24, 0]), bytes([26, 1, 0]), bytes([26, 1, 1]), bytes([26, 2, 0, 1]),
               bytes([27]), bytes([28]), bytes([29, 0]), bytes([30])]
